@@ -7,7 +7,7 @@ LEVEL_TEXT = ("runtime.c is executed symbolically for ALL CPUID/XCR0 register co
 TRUSTED = ["CBMC 6.11", "asm2c mapping of cpuid/xgetbv to symbolic registers", "Intel SDM meaning of the CPUID/XCR0 bits (transcribed in the harness)",
            "the kernel reports XCR0 truthfully"]
 ASSUMPTIONS = ["x86-64 build configuration of /repo"]
-OUTSIDE = [".S back ends (salsa20 xmm6, sandy2x)", "poly1305 SSE2 arithmetic", "ARM builds", "AES-NI units (AEGIS, AES-GCM)", "Argon2 / scrypt SIMD fill-block units",
+OUTSIDE = [".S back ends (salsa20 xmm6, sandy2x)", "poly1305 SSE2 arithmetic", "ARM builds", "Argon2 data-dependent segments (Argon2id slices 2-3, passes > 0) in the SIMD units", "scrypt SSE2 unit beyond smix at (r, N) in {(1,2), (1,4)}", "AEGIS back ends: decided against the specification under C01",
            "SIMD equivalence at lengths other than the enumerated ones"]
 
 DISP = ["chacha20", "salsa20", "poly1305", "x25519", "aegis128l", "aegis256", "blake2b", "argon2", "aes256gcm-available"]
@@ -18,7 +18,7 @@ TECHNIQUE = ("CBMC bounded model checking of runtime.c / dispatchers / helpers f
              "units by symbolic execution of clang-14 LLVM IR over a shared bit-level XOR-AND graph (structural identity + kissat SAT sweeping)")
 
 
-E2_EQUIV = ["chacha20-ssse3", "chacha20-avx2", "salsa20-sse2", "salsa20-avx2", "blake2b-ssse3", "blake2b-sse41", "blake2b-avx2"]
+E2_EQUIV = ["argon2-fill-ssse3", "argon2-fill-avx2", "argon2-fill-avx512f", "scrypt-smix-sse2", "chacha20-ssse3", "chacha20-avx2", "salsa20-sse2", "salsa20-avx2", "blake2b-ssse3", "blake2b-sse41", "blake2b-avx2"]
 
 
 def obligations(tier):
